@@ -1,6 +1,7 @@
 package eng
 
 import (
+	"sort"
 	"fmt"
 	"go/types"
 	"math/big"
@@ -158,6 +159,25 @@ func (sc *SCtx) ident(name string) (Val, error) {
 				if phi, ok := in.(*ssa.Phi); ok && phi.Comment == name {
 					if v, ok := sc.g.env[phi]; ok {
 						return v, nil
+					}
+				}
+			}
+			// a loop-carried variable of an enclosing loop: fixed during this loop
+			{
+				var encl []*Loop
+				for _, l := range sc.g.cfg.LoopSeq {
+					if l.Header != sc.loopHeader && l.Blocks[sc.loopHeader] {
+						encl = append(encl, l)
+					}
+				}
+				sort.Slice(encl, func(i, j int) bool { return len(encl[i].Blocks) < len(encl[j].Blocks) })
+				for _, l := range encl {
+					for _, in := range l.Header.Instrs {
+						if phi, ok := in.(*ssa.Phi); ok && phi.Comment == name {
+							if v, ok := sc.g.env[phi]; ok {
+								return v, nil
+							}
+						}
 					}
 				}
 			}
